@@ -148,6 +148,13 @@ package zipslicer
 //@   requires 0 <= d.DirLoc && d.DirLoc <= 2305843009213693952
 //@   before call encoding/binary.Write(_, _, v): assert @absent_zip64_records_are_not_emitted \
 //@        (istype(v, zip64End) ==> unbox(v, zip64End).Signature != 0) && (istype(v, zip64Loc) ==> unbox(v, zip64Loc).Signature != 0)
+//@   ghost ce int = 0
+//@   on call (*Directory).NextFileOffset(_) ret (n, e): ce = n
+//@   before call encoding/binary.Write(_, _, v): assert @classic_end_record_keeps_its_offset_or_is_moved_back_over_the_gap istype(v, zipEndRecord) ==> \
+//@        (!trim ==> unbox(v, zipEndRecord).CDOffset == old(d.end.CDOffset)) && \
+//@        (trim && old(d.end.CDOffset) != 4294967295 ==> unbox(v, zipEndRecord).CDOffset == wrap32u(old(d.end.CDOffset) - (old(d.DirLoc) - ce)))
+//@   before call encoding/binary.Write(_, _, v): assert @zip64_records_are_moved_back_over_the_gap_when_trimming \
+//@        (istype(v, zip64End) && !trim ==> unbox(v, zip64End).CDOffset == old(d.end64.CDOffset)) && (istype(v, zip64Loc) && !trim ==> unbox(v, zip64Loc).Offset == old(d.loc64.Offset))
 //@
 //@ extern dynamic callback(mf) ret (e)
 //@   modifies mf.deleted, mf.File.lfh, mf.File.lfhName, mf.File.lfhExtra, mf.File.ddb, mf.File.CRC32
